@@ -74,6 +74,7 @@ def scratch_cleanup(ctx):
     base = getattr(ctx, "_c02_base", None)
     if base and base != ctx.scratch:
         shutil.rmtree(base, ignore_errors=True)
+    ctx._c02_base = None
 
 
 def classify(dt):
